@@ -2,6 +2,10 @@ package chain
 
 import (
 	"fmt"
+	"os"
+	"path/filepath"
+	"regexp"
+	"strconv"
 	"strings"
 
 	"verifharness/vh"
@@ -51,6 +55,7 @@ type Params struct {
 	StartSuf     bool // first block carries a suffrage change and a policy (like a genesis block)
 	BadWrites    bool // sometimes try a write at a wrong height
 	ReopenAlways bool // close + reopen after every block and after every merge
+	Big          bool // NKeys/NKn exceed the permanent merge's batch limit; the first block (and some later) is BIG
 }
 
 func RandomParams(r *vh.Rand, reopen bool) Params {
@@ -61,6 +66,10 @@ func RandomParams(r *vh.Rand, reopen bool) Params {
 	}
 	if r.Chance(1, 3) {
 		p.Blocks = r.Range(3, 10)
+	}
+	if r.Chance(1, 40) { // a short history with BIG blocks (their merge spans several batches)
+		limit := BatchLimit()
+		p.Big, p.Blocks, p.NKeys, p.NIn, p.NKn = true, r.Range(3, 5), limit+2+r.Range(2, 12), limit/2, limit+r.Range(2, 12)
 	}
 	return p
 }
@@ -81,6 +90,74 @@ func WriteCacheSize(r *vh.Rand) int {
 	default:
 		return 64
 	}
+}
+
+// BatchLimit is LeveldbPermanent's batchlimit (the permanent merge writes the temp's keys in batches of this
+// size), as regenerated from the Go source by the translator into coq/Gen/C19.v (perm_new_ints); a BIG block
+// carries more state / operation keys than that, so that its merge spans several batches.
+func BatchLimit() int {
+	dir := os.Getenv("VERIF_DIR")
+	if dir == "" {
+		dir = "/verif"
+	}
+	limit := 0
+	if b, err := os.ReadFile(filepath.Join(dir, "coq", "Gen", "C19.v")); err == nil {
+		if m := regexp.MustCompile(`perm_new_ints : list Z := \[([^\]]*)\]`).FindSubmatch(b); m != nil {
+			for _, x := range regexp.MustCompile(`-?\d+`).FindAll(m[1], -1) {
+				if v, err := strconv.Atoi(string(x)); err == nil && v > limit {
+					limit = v
+				}
+			}
+		}
+	}
+	if limit < 8 || limit > 5000 {
+		limit = 333
+	}
+	return limit
+}
+
+// BigShape: a block with nstates ordinary states (keys 2..nstates+1; the first nin of them list one in-state
+// operation each) and nkn known operations.
+func BigShape(h int64, nstates, nin, nkn int) BlockShape {
+	sh := BlockShape{H: h}
+	for i := 0; i < nstates; i++ {
+		sh.Keys = append(sh.Keys, i+2)
+		if i < nin {
+			sh.KeyOps = append(sh.KeyOps, []int{i})
+		} else {
+			sh.KeyOps = append(sh.KeyOps, nil)
+		}
+	}
+	for i := 0; i < nkn; i++ {
+		sh.Known = append(sh.Known, i)
+	}
+	return sh
+}
+
+// BigHistory: a corpus history around one BIG block (more keys than the permanent merge's batch limit, both
+// as states and as known operations) that is merged into the permanent store, rewritten in part by a later
+// block, with reopen steps when reopen is set.  Every key is read after every step.
+func BigHistory(r *vh.Rand, reopen bool) (*World, []Op, Cfg) {
+	limit := BatchLimit()
+	nstates, nkn, nin := limit+7, limit+9, limit/2+3
+	w := NewWorld(r, nstates+2, nin, nkn)
+	b0s := BigShape(0, nstates, nin, nkn)
+	b0s.Suf, b0s.Pol = true, true
+	b0 := w.NewBlock(b0s)
+	b1 := w.NewBlock(BlockShape{H: 1, Keys: []int{2, 5}, KeyOps: [][]int{nil, {1}}, Known: []int{0}})
+	b2s := BigShape(2, nstates/2, 0, 3)
+	b2s.Suf, b2s.SH = true, 1
+	b2 := w.NewBlock(b2s)
+	b3 := w.NewBlock(BlockShape{H: 3})
+	ops := []Op{{T: "W", B: b0}, {T: "W", B: b1, Cache: 2}, {T: "M"}}
+	if reopen {
+		ops = append(ops, Op{T: "O"})
+	}
+	ops = append(ops, Op{T: "W", B: b2, Cache: 64}, Op{T: "W", B: b3}, Op{T: "M"}, Op{T: "M"}, Op{T: "C", N: 0})
+	if reopen {
+		ops = append(ops, Op{T: "O"})
+	}
+	return w, ops, Cfg{NKeys: nstates + 2, HLo: -1, HHi: 5, SHHi: 3, NIn: nin, NKn: nkn}
 }
 
 func subset(r *vh.Rand, n, max int) []int {
@@ -117,9 +194,14 @@ func Generate(r *vh.Rand, w *World, p Params) ([]Op, Cfg) {
 			sh := BlockShape{H: h}
 			good := spec.top() == nil || h == spec.top().H+1
 			nk := p.NKeys - 2
-			for _, k := range subset(r, nk, 4) {
-				sh.Keys = append(sh.Keys, k+2)
-				sh.KeyOps = append(sh.KeyOps, subset(r, p.NIn, 2))
+			big := p.Big && (len(spec.Blocks) == 0 || r.Chance(1, 4))
+			if big {
+				sh = BigShape(h, nk, p.NIn, p.NKn)
+			} else {
+				for _, k := range subset(r, nk, 4) {
+					sh.Keys = append(sh.Keys, k+2)
+					sh.KeyOps = append(sh.KeyOps, subset(r, p.NIn, 2))
+				}
 			}
 			if nextSuf == -1<<62 {
 				if p.StartSuf {
@@ -137,7 +219,9 @@ func Generate(r *vh.Rand, w *World, p Params) ([]Op, Cfg) {
 				sh.Pol = true
 				sh.PolOps = subset(r, p.NIn, 1)
 			}
-			sh.Known = subset(r, p.NKn, 3)
+			if !big {
+				sh.Known = subset(r, p.NKn, 3)
+			}
 			b := w.NewBlock(sh)
 			ops = append(ops, Op{T: "W", B: b, Cache: WriteCacheSize(r)})
 			if good {
